@@ -301,10 +301,15 @@ class AstToSqlVisitor(visitor.NodeVisitor):
             if suffix:
                 res = res + f" || '{suffix}'"
         else:
-            res = str(arg.val).replace("%", "%%").replace("_", "__")  # type: ignore
+            raw = str(arg.val)  # type: ignore
+            # LIKE wildcards in the literal must match themselves:
+            res = raw.replace("\\", "\\\\").replace("%", "\\%").replace("_", "\\_")
+            escaped = res != raw
             # Replace single quotes with double single-quotes acc SQL standard:
             res = res.replace("'", "''")
             res = "'" + prefix + res + suffix + "'"
+            if escaped:
+                res += " ESCAPE '\\'"
         return res
 
     def sqlfunc_contains(self, *args: ast._Node) -> str:
